@@ -711,8 +711,11 @@ impl<'source> Parser<'source> {
                     }
                     Indentation::Greater | Indentation::Flexible => {
                         // Indentation within an arithmetic expression shouldn't be able to
-                        // continue with decreased indentation.
-                        context.with_expected_indentation(Indentation::GreaterOrEqual(start_indent))
+                        // continue with decreased indentation, relative to the line that the
+                        // expression has just been continued on.
+                        context.with_expected_indentation(Indentation::GreaterOrEqual(
+                            self.current_indent().max(start_indent),
+                        ))
                     }
                 }
             } else {
